@@ -63,7 +63,7 @@ class FGen:
         for _ in range(self.r.randint(0, 3)):
             if self.p(0.35) and d < 2:
                 self.feats.add("nested-spec-field")
-                inner = "{" + self.pick(["w", "p", "w + 1", "a.b", "f(w)"]) + (self.pick(["", "!r", ":>{z}", ":{z}{y:{k}}", ":{z:>{k}}"]) if self.p(0.3) else "") + "}"
+                inner = "{" + self.pick(["w", "p", "w + 1", "a.b", "f(w)"] + ([self.literal(d + 1, outer=quote)] if d < 1 and self.p(0.25) else [])) + (self.pick(["", "!r", ":>{z}", ":{z}{y:{k}}", ":{z:>{k}}"]) if self.p(0.3) else "") + "}"
                 parts.append(inner)
             else:
                 t = self.pick(SPEC_TEXT)
